@@ -585,7 +585,7 @@ protected:
             // A prediction for a key far away from the segment may exceed the range of int64_t, in which case the
             // conversion would be undefined; for the callers any value larger than the number of elements is equivalent
             constexpr double max_pos = 4611686018427387904.0; // 2^62
-            double p = slope * (k - origin);
+            double p = double(slope) * double(k - origin);
             auto pos = (p < max_pos ? int64_t(p) : int64_t(max_pos)) + intercept;
             return pos > 0 ? size_t(pos) : 0ull;
         }
